@@ -25,11 +25,11 @@ private theorem sample_bounds (a : UAxis) (hdt : 0 < a.dt) (i : Nat) (hi : i < a
     mul_le_mul_of_nonneg_right (by omega) hdt.le
   constructor <;> linarith
 
-private theorem indexAt_single (a : UAxis) (t : Int) (h1 : a.t0 ≤ t) (h2 : t < a.stop) :
+private theorem indexAt_single (a : UAxis) (hdt : 0 < a.dt) (t : Int) (h1 : a.t0 ≤ t) (h2 : t < a.stop) :
     a.indexAt [t] = .ok [a.bin t] := by
   have h1' : ¬ t < a.t0 := by omega
   have h2' : ¬ a.stop ≤ t := by omega
-  simp [indexAt, indexAtWith, C01.listMin, C01.listMax, h1', h2']
+  simp [indexAt, indexAtWith, C01.listMin, C01.listMax, h1', h2', hdt]
 
 private theorem bin_eq (a : UAxis) (hdt : 0 < a.dt) (i : Nat) (t : Int)
     (h1 : a.sample i ≤ t) (h2 : t < a.sample (i + 1)) : a.bin t = (i : Int) := by
@@ -48,7 +48,7 @@ private theorem bin_eq (a : UAxis) (hdt : 0 < a.dt) (i : Nat) (t : Int)
 theorem indexAt_bin (a : UAxis) (hdt : 0 < a.dt) (i : Nat) (hi : i < a.n) (t : Int)
     (h1 : a.sample i ≤ t) (h2 : t < a.sample (i + 1)) : a.indexAt [t] = .ok [(i : Int)] := by
   obtain ⟨hlo, hhi⟩ := sample_bounds a hdt i hi
-  rw [indexAt_single a t (by linarith) (by linarith), bin_eq a hdt i t h1 h2]
+  rw [indexAt_single a hdt t (by linarith) (by linarith), bin_eq a hdt i t h1 h2]
 
 /-- looking up the time of sample `i` returns `i` -/
 theorem indexAt_sample (a : UAxis) (hdt : 0 < a.dt) (i : Nat) (hi : i < a.n) :
@@ -57,9 +57,9 @@ theorem indexAt_sample (a : UAxis) (hdt : 0 < a.dt) (i : Nat) (hi : i < a.n) :
   unfold sample; push_cast; linarith
 
 /-- instants outside the covered range `[t0, t0 + n·dt)` are refused -/
-theorem indexAt_refuses_outside (a : UAxis) (t : Int) (h : t < a.t0 ∨ a.stop ≤ t) :
+theorem indexAt_refuses_outside (a : UAxis) (hdt : 0 < a.dt) (t : Int) (h : t < a.t0 ∨ a.stop ≤ t) :
     a.indexAt [t] = .error .valueError := by
-  simp [indexAt, indexAtWith, C01.listMin, C01.listMax, h]
+  simp [indexAt, indexAtWith, C01.listMin, C01.listMax, h, hdt]
 
 private theorem foldl_min_spec (xs : List Int) (x : Int) :
     let m := xs.foldl (fun a b => if b < a then b else a) x
@@ -107,7 +107,7 @@ private theorem foldl_max_spec (xs : List Int) (x : Int) :
 
 /-- array queries: accepted iff every instant lies in the covered range, and then each maps to
 its own bin -/
-theorem indexAt_list (a : UAxis) (ts : List Int) (hne : ts ≠ []) :
+theorem indexAt_list (a : UAxis) (hdt : 0 < a.dt) (ts : List Int) (hne : ts ≠ []) :
     (a.indexAt ts = .ok (ts.map a.bin) ↔ ∀ t ∈ ts, a.t0 ≤ t ∧ t < a.stop) ∧
     (a.indexAt ts = .error .valueError ↔ ∃ t ∈ ts, t < a.t0 ∨ a.stop ≤ t) := by
   cases ts with
@@ -119,7 +119,7 @@ theorem indexAt_list (a : UAxis) (ts : List Int) (hne : ts ≠ []) :
         List.foldl (fun a b => if a < b then b else a) x xs ≥ a.stop
     · have e : a.indexAt (x :: xs) = .error .valueError := by
         simp only [indexAt, indexAtWith, C01.listMin, C01.listMax, List.isEmpty_cons,
-          Bool.false_eq_true, if_false, hbad, if_true]
+          Bool.false_eq_true, if_false, hbad, if_true, gt_iff_lt, hdt]
       rw [e]
       have hex : ∃ t ∈ x :: xs, t < a.t0 ∨ a.stop ≤ t := by
         rcases hbad with h | h
@@ -130,7 +130,7 @@ theorem indexAt_list (a : UAxis) (ts : List Int) (hne : ts ≠ []) :
       have := h t ht; omega
     · have e : a.indexAt (x :: xs) = .ok ((x :: xs).map a.bin) := by
         simp only [indexAt, indexAtWith, C01.listMin, C01.listMax, List.isEmpty_cons,
-          Bool.false_eq_true, if_false, hbad]
+          Bool.false_eq_true, if_false, hbad, gt_iff_lt, hdt, if_true]
       rw [e]
       have hall : ∀ t ∈ x :: xs, a.t0 ≤ t ∧ t < a.stop := by
         intro t ht
@@ -155,8 +155,12 @@ theorem indexAtBool_spec (a : UAxis) (ts : List Int) (m : List Bool) (h : a.inde
       split at hi
       · cases hi
       · split at hi
-        · cases hi
-        · cases hi; rfl
+        · split at hi
+          · cases hi
+          · cases hi; rfl
+        · split at hi
+          · cases hi
+          · cases hi; rfl
     cases h
     refine ⟨by simp, fun i hin => ?_⟩
     simp [List.getD_eq_getElem?_getD, hin, hidx]
@@ -250,7 +254,7 @@ theorem sliceDuring_spec_uniform (a : UAxis) (hdt : 0 < a.dt) (start stop : Int)
     i ∈ slicePos (a.sliceDuring start stop).1 (a.sliceDuring start stop).2 ↔
       i < a.n ∧ start ≤ a.sample i ∧ a.sample i < stop := by
   rw [mem_slicePos]
-  simp only [UAxis.sliceDuring]
+  simp only [UAxis.sliceDuring, gt_iff_lt, hdt, if_true]
   constructor
   · rintro ⟨h1, h2⟩
     have hn : i < a.n := lt_of_lt_of_le h2 (edge_le a hdt stop)
@@ -275,15 +279,140 @@ theorem sliceDuringCurrent_counterexample_uniform :
   ⟨⟨-3, 2, 5, 10, .ms⟩, -3, 7, by decide⟩
 
 /-- what today's code does satisfy: epochs whose two edges lie inside the axis -/
-theorem sliceDuringCurrent_partial_uniform (a : UAxis) (hd : a.dur = (a.n : Int) * a.dt)
+theorem sliceDuringCurrent_partial_uniform (a : UAxis) (hdt : 0 < a.dt) (hd : a.dur = (a.n : Int) * a.dt)
     (start stop : Int) (h1 : a.t0 ≤ start) (h2 : start < a.stop) (h3 : a.t0 ≤ stop) (h4 : stop < a.stop) :
     a.sliceDuringCurrent start stop = .ok (a.sliceDuring start stop) := by
   have e1 : a.edge start = a.edgeIn start := by
     simp [edge, show ¬ start < a.t0 by omega, show ¬ a.stop ≤ start by omega]
   have e2 : a.edge stop = a.edgeIn stop := by
     simp [edge, show ¬ stop < a.t0 by omega, show ¬ a.stop ≤ stop by omega]
-  simp only [UAxis.sliceDuringCurrent, indexAtCurrent_partial a hd, indexAt_single a start h1 h2,
-    indexAt_single a stop h3 h4, UAxis.sliceDuring, e1, e2]
+  simp only [UAxis.sliceDuringCurrent, indexAtCurrent_partial a hd, indexAt_single a hdt start h1 h2,
+    indexAt_single a hdt stop h3 h4, UAxis.sliceDuring, e1, e2, gt_iff_lt, hdt, if_true]
+
+/-! ### reversed uniform axes (negative sampling interval: `axis *= -1`, a descending ramp, or a negative
+`sampling_interval`): samples `t0 + i·dt` decrease, sample `i` owns the instants `(t_i + dt, t_i]`
+(at or before the sample, after the next one), the axis covers `(t0 + n·dt, t0]` -/
+
+/-- floor division by a negative interval -/
+private theorem fdiv_neg_char (x d : Int) (hd : d < 0) :
+    (Int.fdiv x d + 1) * d < x ∧ x ≤ Int.fdiv x d * d := by
+  have h : Int.fdiv x d = (-x) / (-d) := by
+    rw [← Int.neg_fdiv_neg, Int.fdiv_eq_ediv_of_nonneg _ (by omega)]
+  rw [h]
+  have he : 0 < -d := by omega
+  have h1 : (-x) / (-d) * (-d) ≤ -x := Int.ediv_mul_le _ (by omega)
+  have h2 : -x < ((-x) / (-d) + 1) * (-d) := Int.lt_ediv_add_one_mul_self _ he
+  generalize (-x) / (-d) = q at h1 h2
+  constructor <;> nlinarith
+
+private theorem rev_quot_iff (q x d : Int) (i : Nat) (hd : d < 0) (h1 : (q + 1) * d < x) (h2 : x ≤ q * d) :
+    (i : Int) < q + 1 ↔ x ≤ (i : Int) * d := by
+  constructor
+  · intro h
+    have : q * d ≤ (i : Int) * d := mul_le_mul_of_nonpos_right (by omega) hd.le
+    linarith
+  · intro h
+    by_contra hc
+    have : (i : Int) * d ≤ (q + 1) * d := mul_le_mul_of_nonpos_right (by omega) hd.le
+    linarith
+
+private theorem bin_eq_rev (a : UAxis) (hdt : a.dt < 0) (i : Nat) (t : Int)
+    (h1 : a.sample (i + 1) < t) (h2 : t ≤ a.sample i) : a.bin t = (i : Int) := by
+  unfold sample at h1 h2
+  push_cast at h1
+  obtain ⟨c1, c2⟩ := fdiv_neg_char (t - a.t0) a.dt hdt
+  unfold bin
+  generalize Int.fdiv (t - a.t0) a.dt = q at c1 c2
+  have e1 := (rev_quot_iff q (t - a.t0) a.dt i hdt c1 c2).mpr (by linarith)
+  have e2 := (rev_quot_iff q (t - a.t0) a.dt (i + 1) hdt c1 c2).not.mpr (by push_cast; linarith)
+  push_cast at e2; omega
+
+private theorem sample_bounds_rev (a : UAxis) (hdt : a.dt < 0) (i : Nat) (hi : i < a.n) :
+    a.sample i ≤ a.t0 ∧ a.stop ≤ a.sample (i + 1) := by
+  unfold sample stop
+  have h1 : (i : Int) * a.dt ≤ 0 := mul_nonpos_of_nonneg_of_nonpos (by omega) hdt.le
+  have h2 : (a.n : Int) * a.dt ≤ ((i + 1 : Nat) : Int) * a.dt := mul_le_mul_of_nonpos_right (by omega) hdt.le
+  constructor <;> linarith
+
+private theorem indexAt_single_rev (a : UAxis) (hdt : a.dt < 0) (t : Int) (h1 : t ≤ a.t0) (h2 : a.stop < t) :
+    a.indexAt [t] = .ok [a.bin t] := by
+  have h0 : ¬ 0 < a.dt := by omega
+  have h1' : ¬ a.t0 < t := by omega
+  have h2' : ¬ t ≤ a.stop := by omega
+  simp [indexAt, indexAtWith, C01.listMin, C01.listMax, h0, h1', h2']
+
+/-- reversed axis: an instant in the bin `(t_{i+1}, t_i]` of sample `i` maps to `i` -/
+theorem indexAt_bin_rev (a : UAxis) (hdt : a.dt < 0) (i : Nat) (hi : i < a.n) (t : Int)
+    (h1 : a.sample (i + 1) < t) (h2 : t ≤ a.sample i) : a.indexAt [t] = .ok [(i : Int)] := by
+  obtain ⟨hlo, hhi⟩ := sample_bounds_rev a hdt i hi
+  rw [indexAt_single_rev a hdt t (by linarith) (by linarith), bin_eq_rev a hdt i t h1 h2]
+
+/-- reversed axis: looking up the time of sample `i` returns `i` -/
+theorem indexAt_sample_rev (a : UAxis) (hdt : a.dt < 0) (i : Nat) (hi : i < a.n) :
+    a.indexAt [a.sample i] = .ok [(i : Int)] := by
+  apply indexAt_bin_rev a hdt i hi _ _ le_rfl
+  unfold sample; push_cast; linarith
+
+/-- reversed axis: instants outside the covered range `(t0 + n·dt, t0]` are refused -/
+theorem indexAt_refuses_outside_rev (a : UAxis) (hdt : a.dt < 0) (t : Int) (h : a.t0 < t ∨ t ≤ a.stop) :
+    a.indexAt [t] = .error .valueError := by
+  have h0 : ¬ 0 < a.dt := by omega
+  simp [indexAt, indexAtWith, C01.listMin, C01.listMax, h, h0]
+
+private theorem edgeRev_spec (a : UAxis) (hdt : a.dt < 0) (s : Int) (i : Nat) (hi : i < a.n) :
+    i < a.edgeRev s ↔ s ≤ a.sample i := by
+  obtain ⟨c1, c2⟩ := fdiv_neg_char (s - a.t0) a.dt hdt
+  unfold edgeRev clipN sample
+  generalize Int.fdiv (s - a.t0) a.dt = q at c1 c2
+  have key := rev_quot_iff q (s - a.t0) a.dt i hdt c1 c2
+  have key' : (i : Int) < q + 1 ↔ s ≤ a.t0 + (i : Int) * a.dt := by rw [key]; constructor <;> intro h <;> linarith
+  by_cases hneg : q + 1 < 0
+  · simp only [hneg, if_true]
+    constructor
+    · intro h; omega
+    · intro h; have := key'.mpr h; omega
+  · by_cases hbig : q + 1 > (a.n : Int)
+    · simp only [hneg, hbig, if_true, if_false]
+      constructor
+      · intro _; exact key'.mp (by omega)
+      · intro _; exact hi
+    · simp only [hneg, hbig, if_false]
+      rw [← key']; omega
+
+private theorem edgeRev_le (a : UAxis) (s : Int) : a.edgeRev s ≤ a.n := by
+  unfold edgeRev clipN
+  split
+  · omega
+  · split
+    · exact le_rfl
+    · omega
+
+/-- reversed axis: `slice_during` selects exactly the positions with `start ≤ t_i < stop` (again a
+contiguous index range), for every epoch -/
+theorem sliceDuring_spec_uniform_rev (a : UAxis) (hdt : a.dt < 0) (start stop : Int) (i : Nat) :
+    i ∈ slicePos (a.sliceDuring start stop).1 (a.sliceDuring start stop).2 ↔
+      i < a.n ∧ start ≤ a.sample i ∧ a.sample i < stop := by
+  rw [mem_slicePos]
+  have h0 : ¬ 0 < a.dt := by omega
+  simp only [UAxis.sliceDuring, gt_iff_lt, h0, if_false]
+  constructor
+  · rintro ⟨h1, h2⟩
+    have hn : i < a.n := lt_of_lt_of_le h2 (edgeRev_le a start)
+    refine ⟨hn, (edgeRev_spec a hdt start i hn).mp h2, ?_⟩
+    by_contra hc
+    have := (edgeRev_spec a hdt stop i hn).mpr (by omega)
+    omega
+  · rintro ⟨hn, h1, h2⟩
+    refine ⟨?_, (edgeRev_spec a hdt start i hn).mpr h1⟩
+    by_contra hc
+    have := (edgeRev_spec a hdt stop i hn).mp (by omega)
+    omega
+
+example : (⟨3, -2, 5, -10, .ms⟩ : UAxis).indexAt [3, 2, 1, -5, -6] = .ok [0, 0, 1, 4, 4] := by decide
+example : (⟨3, -2, 5, -10, .ms⟩ : UAxis).indexAt [-7] = .error .valueError ∧
+    (⟨3, -2, 5, -10, .ms⟩ : UAxis).indexAt [4] = .error .valueError := by decide
+example : (⟨3, -2, 5, -10, .ms⟩ : UAxis).sliceDuring (-3) 2 = (1, 4) ∧
+    (⟨3, -2, 5, -10, .ms⟩ : UAxis).sliceDuring (-30) 20 = (0, 5) := by decide
 
 /-! ### arbitrary time arrays: closest / before / after -/
 
@@ -630,4 +759,300 @@ theorem events_getInt_positions (ev : Events) (k : Int) (h1 : 0 ≤ k) (h2 : k <
 example : (Series.during ⟨⟨-3, 2, 5, 10, .ms⟩, [[0, 1, 2, 3, 4], [5, 6, 7, 8, 9]]⟩
     ⟨[-1], [3], true, 2, .ms⟩) = .ok ⟨.ms, 2, [[[1, 2], [6, 7]]]⟩ := by decide
 
+/-! ### the `Epochs` constructor in general; int64 range -/
+
+/-- the offset argument as the constructor reads it (`None` means 0) -/
+def offOf (u : Option TimeUnit) (offset : Arg) : C01.TVal := toTime u (offset.getD (.bare true [.int 0]))
+
+/-- numpy broadcasting of two 0-d / 1-d time values, as `bc` performs it -/
+theorem bc_spec (f : Int → Int → Int) (a b : C01.TVal) :
+    (a.ps.length = b.ps.length → bc f a b = .ok (List.zipWith f a.ps b.ps, a.scalar && b.scalar)) ∧
+    (∀ x, a.ps = [x] → b.ps.length ≠ 1 → bc f a b = .ok (b.ps.map (f x), false)) ∧
+    (∀ y, b.ps = [y] → a.ps.length ≠ 1 → bc f a b = .ok (a.ps.map (fun x => f x y), false)) ∧
+    (a.ps.length ≠ b.ps.length → a.ps.length ≠ 1 → b.ps.length ≠ 1 → bc f a b = .error .valueError) := by
+  refine ⟨fun h => by simp [bc, C01.broadcast, h], fun x hx hb => ?_, fun y hy ha => ?_, fun h ha hb => ?_⟩
+  · have : a.ps.length ≠ b.ps.length := by rw [hx]; simpa using fun h => hb h.symm
+    simp [bc, C01.broadcast, hx, show ¬ 1 = b.ps.length from fun h => hb h.symm]
+  · have : a.ps.length ≠ b.ps.length := by rw [hy]; simpa using ha
+    rcases hps : a.ps with _ | ⟨x, _ | ⟨x2, xs⟩⟩
+    · simp [bc, C01.broadcast, hps, hy]
+    · rw [hps] at ha; simp at ha
+    · simp [bc, C01.broadcast, hps, hy]
+  · rcases hpa : a.ps with _ | ⟨x, _ | ⟨x2, xs⟩⟩ <;> rcases hpb : b.ps with _ | ⟨y, _ | ⟨y2, ys⟩⟩ <;>
+      simp_all [bc, C01.broadcast]
+
+theorem bc_error_kind (f : Int → Int → Int) (a b : C01.TVal) (er : Err) (h : bc f a b = .error er) : er = .valueError := by
+  unfold bc at h
+  split at h
+  · cases h
+  · cases h; rfl
+
+/-- the constructor's last step: start and stop must have the same shape -/
+def shapeOk (sS : Bool) (S : List Int) (sP : Bool) (P : List Int) (off : Int) (un : TimeUnit) : Except Err Epochs :=
+  if sS = sP ∧ S.length = P.length then .ok ⟨S, P, sS, off, un⟩ else .error .valueError
+
+/-- `Epochs(start=s, stop=p[, t0, offset])`: start and stop as given (a given `t0` is ignored) -/
+theorem epochs_mk_start_stop (u : Option TimeUnit) (t0 offset : Arg) (s p : C01.Operand)
+    (hoff : (offOf u offset).scalar = true) :
+    Epochs.mk' u t0 (some p) offset (some s) none =
+      shapeOk (toTime u s).scalar (toTime u s).ps (toTime u p).scalar (toTime u p).ps
+        ((offOf u offset).ps.headD 0) (toTime u s).unit := by
+  unfold offOf at hoff ⊢
+  by_cases hs : (toTime u s).scalar = (toTime u p).scalar <;>
+    by_cases hl : (toTime u s).ps.length = (toTime u p).ps.length <;> simp [Epochs.mk', shapeOk, bind, Except.bind, pure, Except.pure, throw, throwThe, MonadExceptOf.throw, hoff, hs, hl]
+
+/-- `Epochs(start=s, duration=d[, t0, offset])`: `stop = start + duration` with numpy broadcasting -/
+theorem epochs_mk_start_duration (u : Option TimeUnit) (t0 offset : Arg) (s d : C01.Operand)
+    (hoff : (offOf u offset).scalar = true) :
+    Epochs.mk' u t0 none offset (some s) (some d) =
+      match bc (· + ·) (toTime u s) (toTime u d) with
+      | .ok (P, sP) => shapeOk (toTime u s).scalar (toTime u s).ps sP P ((offOf u offset).ps.headD 0) (toTime u s).unit
+      | .error _ => .error .valueError := by
+  unfold offOf at hoff ⊢
+  cases h1 : bc (· + ·) (toTime u s) (toTime u d) with
+  | error e =>
+    have := bc_error_kind _ _ _ _ h1; subst this
+    simp [Epochs.mk', bind, Except.bind, pure, Except.pure, hoff, h1]
+  | ok r =>
+    obtain ⟨P, sP⟩ := r
+    simp only [Epochs.mk', bind, Except.bind, pure, Except.pure, hoff, h1, Option.isNone_some, Option.isNone_none,
+      Option.isSome_some, Option.isSome_none, and_false, false_and, and_true, if_false, Bool.false_eq_true, Bool.not_true]
+    by_cases hs : (toTime u s).scalar = sP <;>
+      by_cases hl : (toTime u s).ps.length = P.length <;> simp [shapeOk, throw, throwThe, MonadExceptOf.throw, h1, hs, hl]
+
+/-- `Epochs(t0=z, stop=p[, offset])`: `start = t0 − offset` -/
+theorem epochs_mk_t0_stop (u : Option TimeUnit) (offset : Arg) (z p : C01.Operand)
+    (hoff : (offOf u offset).scalar = true) :
+    Epochs.mk' u (some z) (some p) offset none none =
+      match bc (· - ·) (toTime u z) (offOf u offset) with
+      | .ok (S, sS) => shapeOk sS S (toTime u p).scalar (toTime u p).ps ((offOf u offset).ps.headD 0) (toTime u z).unit
+      | .error _ => .error .valueError := by
+  unfold offOf at hoff ⊢
+  cases h1 : bc (· - ·) (toTime u z) (toTime u (offset.getD (.bare true [.int 0]))) with
+  | error e =>
+    have := bc_error_kind _ _ _ _ h1; subst this
+    simp [Epochs.mk', bind, Except.bind, pure, Except.pure, hoff, h1]
+  | ok r =>
+    obtain ⟨S, sS⟩ := r
+    by_cases hs : sS = (toTime u p).scalar <;>
+      by_cases hl : S.length = (toTime u p).ps.length <;> simp [Epochs.mk', shapeOk, bind, Except.bind, pure, Except.pure, throw, throwThe, MonadExceptOf.throw, hoff, h1, hs, hl]
+
+/-- `Epochs(t0=z, duration=d[, offset])`: `start = t0 − offset`, `stop = start + duration` -/
+theorem epochs_mk_t0_duration (u : Option TimeUnit) (offset : Arg) (z d : C01.Operand)
+    (hoff : (offOf u offset).scalar = true) :
+    Epochs.mk' u (some z) none offset none (some d) =
+      match bc (· - ·) (toTime u z) (offOf u offset) with
+      | .ok (S, sS) =>
+        (match bc (· + ·) ⟨S, (toTime u z).unit, sS⟩ (toTime u d) with
+         | .ok (P, sP) => shapeOk sS S sP P ((offOf u offset).ps.headD 0) (toTime u z).unit
+         | .error _ => .error .valueError)
+      | .error _ => .error .valueError := by
+  unfold offOf at hoff ⊢
+  cases h1 : bc (· - ·) (toTime u z) (toTime u (offset.getD (.bare true [.int 0]))) with
+  | error e =>
+    have := bc_error_kind _ _ _ _ h1; subst this
+    simp [Epochs.mk', bind, Except.bind, pure, Except.pure, hoff, h1]
+  | ok r =>
+    obtain ⟨S, sS⟩ := r
+    simp only []
+    cases h2 : bc (· + ·) ⟨S, (toTime u z).unit, sS⟩ (toTime u d) with
+    | error e =>
+      have := bc_error_kind _ _ _ _ h2; subst this
+      simp [Epochs.mk', bind, Except.bind, pure, Except.pure, hoff, h1, h2]
+    | ok r2 =>
+      obtain ⟨P, sP⟩ := r2
+      simp only [Epochs.mk', bind, Except.bind, pure, Except.pure, hoff, h1, h2, Option.isNone_some, Option.isNone_none,
+        Option.isSome_some, Option.isSome_none, and_false, false_and, and_true, if_false, Bool.false_eq_true, Bool.not_true]
+      by_cases hs : sS = sP <;> by_cases hl : S.length = P.length <;>
+        simp [shapeOk, throw, throwThe, MonadExceptOf.throw, h1, h2, hs, hl]
+
+/-- the argument checks: a start (or t0) is needed; exactly one of stop / duration; a 0-d offset -/
+theorem epochs_mk_rejects (u : Option TimeUnit) (t0 stop offset start duration : Arg)
+    (h : (t0 = none ∧ start = none) ∨ (stop = none ∧ duration = none) ∨ (stop.isSome ∧ duration.isSome) ∨
+      (offOf u offset).scalar = false) :
+    Epochs.mk' u t0 stop offset start duration = .error .valueError := by
+  unfold offOf at h
+  rcases h with ⟨h1, h2⟩ | ⟨h1, h2⟩ | ⟨h1, h2⟩ | h
+  · subst h1 h2; simp [Epochs.mk', bind, Except.bind, throw, throwThe, MonadExceptOf.throw]
+  · subst h1 h2
+    cases t0 <;> cases start <;> simp [Epochs.mk', bind, Except.bind, pure, Except.pure, throw, throwThe, MonadExceptOf.throw]
+  · obtain ⟨p, rfl⟩ := Option.isSome_iff_exists.mp h1
+    obtain ⟨d, rfl⟩ := Option.isSome_iff_exists.mp h2
+    cases t0 <;> cases start <;> simp [Epochs.mk', bind, Except.bind, pure, Except.pure, throw, throwThe, MonadExceptOf.throw]
+  · cases t0 <;> cases start <;> cases stop <;> cases duration <;>
+      simp [Epochs.mk', bind, Except.bind, pure, Except.pure, throw, throwThe, MonadExceptOf.throw, h]
+
+theorem shapeOk_error_kind {sS sP : Bool} {S P : List Int} {off : Int} {un : TimeUnit} {er : Err}
+    (h : shapeOk sS S sP P off un = .error er) : er = .valueError := by
+  unfold shapeOk at h
+  split at h
+  · cases h
+  · cases h; rfl
+
+/-- every refusal of the constructor is a ValueError -/
+theorem epochs_mk_error_kind (u : Option TimeUnit) (t0 stop offset start duration : Arg) (er : Err)
+    (h : Epochs.mk' u t0 stop offset start duration = .error er) : er = .valueError := by
+  have rej := epochs_mk_rejects u t0 stop offset start duration
+  by_cases hoff : (offOf u offset).scalar = true
+  swap
+  · rw [rej (Or.inr (Or.inr (Or.inr (by simpa using hoff))))] at h; cases h; rfl
+  cases start with
+  | some s =>
+    cases stop with
+    | some p =>
+      cases duration with
+      | some d => rw [rej (Or.inr (Or.inr (Or.inl ⟨rfl, rfl⟩)))] at h; cases h; rfl
+      | none => rw [epochs_mk_start_stop _ _ _ _ _ hoff] at h; exact shapeOk_error_kind h
+    | none =>
+      cases duration with
+      | none => rw [rej (Or.inr (Or.inl ⟨rfl, rfl⟩))] at h; cases h; rfl
+      | some d =>
+        rw [epochs_mk_start_duration _ _ _ _ _ hoff] at h
+        split at h
+        · exact shapeOk_error_kind h
+        · cases h; rfl
+  | none =>
+    cases t0 with
+    | none => rw [rej (Or.inl ⟨rfl, rfl⟩)] at h; cases h; rfl
+    | some z =>
+      cases stop with
+      | some p =>
+        cases duration with
+        | some d => rw [rej (Or.inr (Or.inr (Or.inl ⟨rfl, rfl⟩)))] at h; cases h; rfl
+        | none =>
+          rw [epochs_mk_t0_stop _ _ _ _ hoff] at h
+          split at h
+          · exact shapeOk_error_kind h
+          · cases h; rfl
+      | none =>
+        cases duration with
+        | none => rw [rej (Or.inr (Or.inl ⟨rfl, rfl⟩))] at h; cases h; rfl
+        | some d =>
+          rw [epochs_mk_t0_duration _ _ _ _ hoff] at h
+          split at h
+          · split at h
+            · exact shapeOk_error_kind h
+            · cases h; rfl
+          · cases h; rfl
+
+example : Epochs.mk' (some .s) (some (.bare false [.int 1, .int 2])) none (some (.bare true [.int 1])) none (some (.bare true [.int 3]))
+    = .ok ⟨[0, 1000000000000], [3000000000000, 4000000000000], false, 1000000000000, .s⟩ := by decide +kernel
+
+/-- the property's domain: magnitudes below 2^62 ps -/
+def Fits62 (x : Int) : Prop := -(2 ^ 62) < x ∧ x < 2 ^ 62
+/-- representable in int64 -/
+def InInt64 (x : Int) : Prop := -(2 ^ 63) ≤ x ∧ x < 2 ^ 63
+
+theorem fits62_sub_add {x y : Int} (hx : Fits62 x) (hy : Fits62 y) :
+    InInt64 (x - y) ∧ InInt64 (x + y) ∧ InInt64 (((x - y).natAbs : Int)) := by
+  unfold Fits62 at hx hy; unfold InInt64
+  refine ⟨⟨by omega, by omega⟩, ⟨by omega, by omega⟩, ⟨by omega, by omega⟩⟩
+
+/-- uniform axis: with the instants, the start and the end of the axis inside the domain, every int64
+intermediate of `index_at` / `slice_during` (`t − t0`, `t0 + duration`, the floor quotient, the
+samples `t0 + i·dt` up to the end) is computed without wrap-around -/
+theorem uniform_no_wrap (a : UAxis) (hdt : 0 < a.dt) (t : Int) (ht : Fits62 t) (h0 : Fits62 a.t0)
+    (hend : Fits62 a.stop) (hdur : Fits62 a.dur) :
+    InInt64 (t - a.t0) ∧ InInt64 (a.t0 + a.dur) ∧ InInt64 (a.bin t) ∧ InInt64 (a.bin t + 1) ∧
+    (∀ i : Nat, i ≤ a.n → Fits62 (a.t0 + (i : Int) * a.dt)) := by
+  have hx := (fits62_sub_add ht h0).1
+  have hq : -(2 ^ 63 : Int) + 2 ≤ a.bin t ∧ a.bin t ≤ 2 ^ 63 - 2 := by
+    unfold bin
+    rw [Int.fdiv_eq_ediv_of_nonneg _ hdt.le]
+    have hq1 : (t - a.t0) / a.dt * a.dt ≤ t - a.t0 := Int.ediv_mul_le _ (by omega)
+    have hq2 : t - a.t0 < ((t - a.t0) / a.dt + 1) * a.dt := Int.lt_ediv_add_one_mul_self _ hdt
+    unfold Fits62 at ht h0
+    generalize (t - a.t0) / a.dt = q at hq1 hq2
+    have hx1 : -(2 ^ 63 : Int) + 2 ≤ t - a.t0 := by omega
+    have hx2 : t - a.t0 ≤ 2 ^ 63 - 2 := by omega
+    generalize t - a.t0 = x at hq1 hq2 hx1 hx2
+    constructor
+    · by_contra hc
+      have h1 : q + 1 ≤ 0 := by omega
+      have : (q + 1) * a.dt ≤ (q + 1) := by nlinarith
+      omega
+    · by_contra hc
+      have h1 : 0 ≤ q := by omega
+      have : q ≤ q * a.dt := by nlinarith
+      omega
+  refine ⟨hx, (fits62_sub_add h0 hdur).2.1, ?_, ?_, ?_⟩
+  · unfold InInt64; omega
+  · unfold InInt64; omega
+  · intro i hi
+    unfold stop at hend
+    unfold Fits62 at *
+    have h1 : (0 : Int) ≤ (i : Int) * a.dt := mul_nonneg (by omega) hdt.le
+    have h2 : (i : Int) * a.dt ≤ (a.n : Int) * a.dt := mul_le_mul_of_nonneg_right (by omega) hdt.le
+    omega
+
+/-- arbitrary time arrays: `self − t` and `np.abs(self − t)` do not wrap -/
+theorem tarray_no_wrap (ts : List Int) (t : Int) (ht : Fits62 t) (hts : ∀ x ∈ ts, Fits62 x) :
+    ∀ x ∈ ts, InInt64 (x - t) ∧ InInt64 (((x - t).natAbs : Int)) :=
+  fun x hx => ⟨(fits62_sub_add (hts x hx) ht).1, (fits62_sub_add (hts x hx) ht).2.2⟩
+
+private theorem mem_zipWith_exists (f : Int → Int → Int) :
+    ∀ (a b : List Int) (z : Int), z ∈ List.zipWith f a b → ∃ x ∈ a, ∃ y ∈ b, z = f x y := by
+  intro a
+  induction a with
+  | nil => intro b z h; simp at h
+  | cons x xs ih =>
+    intro b z h
+    cases b with
+    | nil => simp at h
+    | cons y ys =>
+      simp only [List.zipWith_cons_cons, List.mem_cons] at h
+      rcases h with h | h
+      · exact ⟨x, by simp, y, by simp, h⟩
+      · obtain ⟨x', hx', y', hy', he⟩ := ih ys z h
+        exact ⟨x', by simp [hx'], y', by simp [hy'], he⟩
+
+/-- numpy broadcasting only ever combines an element of one operand with an element of the other -/
+theorem bc_mem (f : Int → Int → Int) (a b : C01.TVal) (r : List Int) (sc : Bool) (h : bc f a b = .ok (r, sc)) :
+    ∀ z ∈ r, ∃ x ∈ a.ps, ∃ y ∈ b.ps, z = f x y := by
+  obtain ⟨s1, s2, s3, s4⟩ := bc_spec f a b
+  by_cases hl : a.ps.length = b.ps.length
+  · rw [s1 hl] at h; cases h; exact mem_zipWith_exists f _ _
+  · by_cases ha1 : a.ps.length = 1
+    · obtain ⟨x, hx⟩ := List.length_eq_one_iff.mp ha1
+      have hb1 : b.ps.length ≠ 1 := by omega
+      rw [s2 x hx hb1] at h; cases h
+      intro z hz
+      obtain ⟨y, hy, he⟩ := List.mem_map.mp hz
+      exact ⟨x, by simp [hx], y, hy, he.symm⟩
+    · by_cases hb1 : b.ps.length = 1
+      · obtain ⟨y, hy⟩ := List.length_eq_one_iff.mp hb1
+        rw [s3 y hy ha1] at h; cases h
+        intro z hz
+        obtain ⟨x, hx, he⟩ := List.mem_map.mp hz
+        exact ⟨x, hx, y, by simp [hy], he.symm⟩
+      · rw [s4 hl ha1 hb1] at h; cases h
+
+/-- epochs: `t0 − offset` and `start + duration` do not wrap when the operands are inside the domain -/
+theorem epochs_no_wrap (a b : C01.TVal) (ha : ∀ x ∈ a.ps, Fits62 x) (hb : ∀ y ∈ b.ps, Fits62 y)
+    (r : List Int) (sc : Bool) :
+    (bc (· - ·) a b = .ok (r, sc) → ∀ z ∈ r, InInt64 z) ∧ (bc (· + ·) a b = .ok (r, sc) → ∀ z ∈ r, InInt64 z) := by
+  constructor
+  · intro h z hz
+    obtain ⟨x, hx, y, hy, he⟩ := bc_mem _ a b r sc h z hz
+    rw [he]; exact (fits62_sub_add (ha x hx) (hb y hy)).1
+  · intro h z hz
+    obtain ⟨x, hx, y, hy, he⟩ := bc_mem _ a b r sc h z hz
+    rw [he]; exact (fits62_sub_add (ha x hx) (hb y hy)).2.1
+
+example : Fits62 (3 * 604800 * 10 ^ 12) ∧ ¬ Fits62 (8 * 604800 * 10 ^ 12) := by unfold Fits62; constructor <;> norm_num
+
+
+/-- `Epochs[key]` (reordering / repeating keys): start, stop and duration are those of the selected
+rows, in the key's order — never a cached duration of the parent -/
+theorem epochs_getItem_spec (e : Epochs) (pos : List Nat) :
+    (e.getItem pos).starts = sel e.starts pos ∧ (e.getItem pos).stops = sel e.stops pos ∧
+    (e.getItem pos).offset = e.offset ∧ (e.getItem pos).unit = e.unit ∧
+    (e.getItem pos).durations = pos.map (fun i => e.stops.getD i 0 - e.starts.getD i 0) := by
+  refine ⟨rfl, rfl, rfl, rfl, ?_⟩
+  simp only [Epochs.getItem, Epochs.durations, sel]
+  induction pos with
+  | nil => rfl
+  | cons p ps ih => simp [ih]
+
+example : (Epochs.getItem ⟨[1, 5, 9], [2, 8, 9], false, 0, .s⟩ [2, 0, 0]).durations = [0, 1, 1] := by decide
 end Nitime.C03.Props
